@@ -23,6 +23,12 @@
    LRecvEnd, history flag h_recvend) and the theorems say what would happen if it ran.  A peer close is an
    `Err` of the transport (ws: `WsError::Closed`), label LPeerClose.
 
+   Granularity: send task = loop iteration | report (close_tx.send) | close_tx.closed() seen | front channel closed
+   (transport close() starts) | transport close() completed + locals dropped; read task = loop iteration / notice |
+   report | locals dropped; watcher = receive | store the reason | drop the receiver.  A caller whose message is
+   still queued sees its oneshot dropped when the send task's receiver is dropped (end of send_task); a caller
+   registered in the manager sees it when BOTH tasks have dropped their manager handle.
+
    Left out: the capacity of the front channel (a caller blocked on a full channel behaves like a later
    LNewCall), ping/inactivity (an inactivity timeout is a receive fault; a failed ping is LSendFault with an
    empty queue), the request timeout (C09_progress shows it is not needed), the contents of messages (the
